@@ -381,6 +381,7 @@ MAKERS = {
     "arc.hwl": ["create 0 hwlFromVec 9:9 2 2 1:1,2:2"],
     "arc.hwlbad": ["create 0 hwlFromVec 9:9 3 2 1:1,2:2"],
     "arc.boxed": ["create 0 fromBox 1:1"],
+    "arc.default": ["create 0 default"],
     "thin.hwl": ["create 0 hwlFromVec 9:9 2 2 1:1,2:2", "intoThin 0"],
     "thin.iter": ["iter 0 thinFromIter 9:9 lens=- hints=- items=1:1,2:2,3:3 panic=-"],
     "offset.sized": ["create 0 new 1:1", "conv 0 intoRawOffset"],
@@ -991,7 +992,7 @@ def side_by_side(harness_exe, model_exe, ops):
 # ------------------------------------------------------------------------------------------------
 # zero-sized payload build: same histories, observations compared up to what a ZST can show
 
-SIZED_CTORS = ("new", "newB", "fromBox", "uniqueNew", "newUninit", "uniqueNewUninit")
+SIZED_CTORS = ("new", "newB", "fromBox", "uniqueNew", "newUninit", "uniqueNewUninit", "default")
 
 
 def zst_applicable(h):
